@@ -8,7 +8,7 @@ Bz == [k |-> "b", tok |-> "z"]
 Ba == [k |-> "b", tok |-> "a"]
 RECURSIVE ValsN(_,_,_)
 ValsN(prog, t, d) ==
-  CASE t.k = "basic" -> {Bz, Ba}
+  CASE t.k \in {"basic", "meth"} -> {Bz, Ba}
     [] t.k = "ptr" -> {Nil} \cup (IF d = 0 THEN {} ELSE {[k |-> "p", e |-> v] : v \in ValsN(prog, t.e, d - 1)})
     [] t.k = "slice" -> {Nil, [k |-> "s", es |-> <<>>]} \cup
                          (IF d = 0 THEN {} ELSE {[k |-> "s", es |-> <<v>>] : v \in ValsN(prog, t.e, d - 1)})
@@ -18,6 +18,14 @@ ValsN(prog, t, d) ==
          LET fs == FieldsOf(prog.shape, t.id) IN
          IF Len(fs) = 1 THEN {[k |-> "st", fs |-> <<v>>] : v \in ValsN(prog, fs[1].t, d)}
          ELSE {[k |-> "st", fs |-> <<v, w>>] : v \in ValsN(prog, fs[1].t, d), w \in ValsN(prog, fs[2].t, d)}
+
+\* the zero value of a type
+RECURSIVE ZeroT(_,_)
+ZeroT(prog, t) == IF t.k = "basic" THEN Bz
+                  ELSE IF t.k = "named" THEN LET fs == FieldsOf(prog.shape, t.id) IN [k |-> "st", fs |-> [i \in DOMAIN fs |-> ZeroT(prog, fs[i].t)]]
+                  ELSE Nil
+\* the element type on the target side of a pointer source (the target need not be a pointer: SourcePointer)
+TE(t) == IF t.k = "ptr" THEN t.e ELSE t
 
 \* the extend function: E(v) = "E(<tok>)" (with "@c" when it receives the context value); it fails on injected tokens
 Mark(prog, v) == [k |-> "b", tok |-> "E(" \o v.tok \o ")" \o (IF prog.extCtx THEN "@c" ELSE "")]
@@ -35,8 +43,10 @@ RECURSIVE Eval(_,_,_,_,_,_), EvalFields(_,_,_,_,_,_,_,_,_), EvalElems(_,_,_,_,_,
 Eval(prog, ms, ir, v, faults, path) ==
   CASE ir.k = "copy" -> Ok(v)
     [] ir.k = "ext" -> IF ir.fn = "C" THEN Ok(MarkC(v)) ELSE IF ir.retErr /\ v.tok \in faults THEN Er(v.tok, path) ELSE Ok(Mark(prog, v))
+    [] ir.k = "mth" -> IF ir.retErr /\ v.tok \in faults THEN Er(v.tok, path) ELSE Ok(v)
     [] ir.k = "call" -> Eval(prog, ms, ms[ir.callee].body, v, faults, path)
     [] ir.k = "valptr" -> LET r == Eval(prog, ms, ir.x, v, faults, path) IN IF r.err # "" THEN r ELSE Ok([k |-> "p", e |-> r.v])
+    [] ir.k = "srcptr" -> IF v = Nil THEN Ok(ZeroT(prog, ir.t)) ELSE Eval(prog, ms, ir.x, v.e, faults, path)
     [] ir.k = "ptrptr" -> IF v = Nil THEN Ok(Nil)
                           ELSE LET r == Eval(prog, ms, ir.x, v.e, faults, path) IN IF r.err # "" THEN r ELSE Ok([k |-> "p", e |-> r.v])
     [] ir.k = "slice" -> IF v = Nil THEN Ok(Nil) ELSE EvalElems(prog, ms, ir.x, v.es, 1, <<>>, faults, path)
@@ -69,8 +79,9 @@ ReachIds(prog, todo, done) ==
        IN ReachIds(prog, (todo \cup next) \ (done \cup {id}), done \cup {id})
 \* does the pair (s, t) need the fallible / context-taking extend function E somewhere (not descending into named types)?
 RECURSIVE NeedsE(_,_)
-NeedsE(s, t) == IF s = INT /\ t = STR THEN TRUE
-                ELSE IF s.k \in {"ptr", "slice"} THEN NeedsE(s.e, t.e)
+NeedsE(s, t) == IF (s = INT /\ t = STR) \/ s.k = "meth" THEN TRUE
+                ELSE IF s.k = "ptr" THEN NeedsE(s.e, TE(t))
+                ELSE IF s.k = "slice" THEN NeedsE(s.e, t.e)
                 ELSE IF s.k = "map" THEN NeedsE(s.key, t.key) \/ NeedsE(s.e, t.e)
                 ELSE FALSE
 UsesExt(prog) == \E id \in ReachIds(prog, {"A"}, {}) : \E i \in DOMAIN FieldsOf(prog.shape, id) : NeedsE(FieldsOf(prog.shape, id)[i].t, FieldsOf(prog.shape, id \o "2")[i].t)
@@ -85,18 +96,19 @@ RECURSIVE SMapN(_,_,_,_), Reached(_,_,_,_,_)
 SMapN(prog, s, t, v) ==
   IF s = INT /\ t = STR THEN Mark(prog, v)
   ELSE IF prog.extId /\ s = STR /\ t = STR THEN MarkC(v)                   \* ... and Canon's at every string -> string position, map keys included
-  ELSE IF s.k = "basic" THEN v
+  ELSE IF s.k \in {"basic", "meth"} THEN v
   ELSE IF s.k = "map" THEN (IF v = Nil THEN Nil ELSE [k |-> "m", kv |-> {<<SMapN(prog, s.key, t.key, e[1]), SMapN(prog, s.e, t.e, e[2])>> : e \in v.kv}])
+  ELSE IF s.k = "ptr" /\ t.k # "ptr" THEN (IF v = Nil THEN ZeroT(prog, t) ELSE SMapN(prog, s.e, t, v.e))
   ELSE IF s.k = "ptr" THEN (IF v = Nil THEN Nil ELSE [k |-> "p", e |-> SMapN(prog, s.e, t.e, v.e)])
   ELSE IF s.k = "slice" THEN (IF v = Nil THEN Nil ELSE [k |-> "s", es |-> [i \in DOMAIN v.es |-> SMapN(prog, s.e, t.e, v.es[i])]])
   ELSE LET sf == FieldsOf(prog.shape, s.id) tf == FieldsOf(prog.shape, t.id) IN
        [k |-> "st", fs |-> [i \in DOMAIN tf |-> SMapN(prog, sf[i].t, tf[i].t, v.fs[i])]]
 \* C07: the injected faults a conversion of v must hit
 Reached(prog, s, t, v, faults) ==
-  IF s = INT /\ t = STR THEN (IF prog.extErr /\ v.tok \in faults THEN {v.tok} ELSE {})
+  IF (s = INT /\ t = STR) \/ s.k = "meth" THEN (IF prog.extErr /\ v.tok \in faults THEN {v.tok} ELSE {})
   ELSE IF s.k = "basic" THEN {}
   ELSE IF s.k = "map" THEN (IF v = Nil THEN {} ELSE UNION {Reached(prog, s.key, t.key, e[1], faults) \cup Reached(prog, s.e, t.e, e[2], faults) : e \in v.kv})
-  ELSE IF s.k = "ptr" THEN (IF v = Nil THEN {} ELSE Reached(prog, s.e, t.e, v.e, faults))
+  ELSE IF s.k = "ptr" THEN (IF v = Nil THEN {} ELSE Reached(prog, s.e, TE(t), v.e, faults))
   ELSE IF s.k = "slice" THEN (IF v = Nil THEN {} ELSE UNION {Reached(prog, s.e, t.e, v.es[i], faults) : i \in DOMAIN v.es})
   ELSE LET sf == FieldsOf(prog.shape, s.id) tf == FieldsOf(prog.shape, t.id) IN
        UNION {Reached(prog, sf[i].t, tf[i].t, v.fs[i], faults) : i \in DOMAIN tf}
@@ -105,9 +117,9 @@ Reached(prog, s, t, v, faults) ==
 RECURSIVE FaultPath(_,_,_,_,_,_), FaultFields(_,_,_,_,_,_,_), FaultElems(_,_,_,_,_,_,_)
 NoPath == <<"-">>
 FaultPath(prog, s, t, v, faults, path) ==
-  IF s = INT /\ t = STR THEN (IF prog.extErr /\ v.tok \in faults THEN path ELSE NoPath)
+  IF (s = INT /\ t = STR) \/ s.k = "meth" THEN (IF prog.extErr /\ v.tok \in faults THEN path ELSE NoPath)
   ELSE IF s.k = "basic" THEN NoPath
-  ELSE IF s.k = "ptr" THEN (IF v = Nil THEN NoPath ELSE FaultPath(prog, s.e, t.e, v.e, faults, path))
+  ELSE IF s.k = "ptr" THEN (IF v = Nil THEN NoPath ELSE FaultPath(prog, s.e, TE(t), v.e, faults, path))
   ELSE IF s.k = "slice" THEN (IF v = Nil THEN NoPath ELSE FaultElems(prog, s.e, t.e, v.es, 1, faults, path))
   ELSE IF s.k = "map" THEN
        (IF v = Nil \/ v.kv = {} THEN NoPath
